@@ -17,8 +17,10 @@ Print Assumptions C15_no_host_panic.
 
 (* NEW finding on the current tree: fd_filestat_set_times on a descriptor whose entry has no file system (stdin/stdout/
    stderr given as io.Reader/io.Writer, accepted sockets) calls f.FS.Utimens on a nil interface when File.Utimens is
-   unsupported: nil-pointer dereference in the host. [nil_fs_case] is exactly this case. *)
-Theorem C15_set_times_nil_fs_refuted :
+   unsupported: nil-pointer dereference in the host. [nil_fs_case] is exactly this case. The model follows the tree
+   through the flag [set_times_checks_fs] (false now); once the code checks f.FS the flag is set to true, [nil_fs_case]
+   becomes constantly false and this statement vacuous. *)
+Theorem C15_set_times_nil_fs_refuted : set_times_checks_fs = false ->
   exists e m v h c, wf_env e /\ wf_mem m /\ wf_view v /\ wf_call c /\ host_ok h c /\ r_out (wasi e m v h c) = Panic.
 Proof. exact set_times_nil_fs_refuted. Qed.
 Print Assumptions C15_set_times_nil_fs_refuted.
@@ -31,6 +33,14 @@ Theorem C15_writes_designated : forall e m v h c,
                    exists d, desig e v c d /\ sub_region w d) (r_w (wasi e m v h c)).
 Proof. exact writes_designated. Qed.
 Print Assumptions C15_writes_designated.
+
+(* the descriptor table: only the descriptors the call names can change (fd_close: fd; fd_renumber: fd and to;
+   path_open / sock_accept: one fresh descriptor, written -1); every other function leaves every entry alone *)
+Theorem C15_table_effect : forall e m v h c,
+  wf_env e -> wf_mem m -> wf_view v -> wf_call c -> host_ok h c ->
+  Forall (fun f => In f (desig_fds c)) (r_fds (wasi e m v h c)).
+Proof. exact table_effect. Qed.
+Print Assumptions C15_table_effect.
 
 (* host allocation is bounded by 8 x memory size + a host-state term, for every function except fd_renumber *)
 Theorem C15_alloc_bounded_partial : forall e m v h c,
@@ -58,7 +68,11 @@ Theorem C15_renumber_alloc_refuted :
 Proof. exact renumber_alloc_refuted. Qed.
 Print Assumptions C15_renumber_alloc_refuted.
 
-(* the number the guest receives for a failure is a valid non-zero WASI errno (ToErrno regenerated from internal/wasip1/errno.go) *)
-Theorem C15_errno_valid : forall e, e <> 0 -> 0 < ToErrno e <= 76.
-Proof. exact to_errno_range. Qed.
+(* "returns an error number": an [Errno] outcome is never 0, and the number the guest receives for it is a valid non-zero
+   WASI errno (ToErrno regenerated from internal/wasip1/errno.go); so every call ends in Done (0), an errno, or the
+   documented exit of proc_exit ([Trap]) *)
+Theorem C15_errno_valid : forall e m v h c x,
+  wf_env e -> wf_mem m -> wf_view v -> wf_call c -> host_ok h c ->
+  r_out (wasi e m v h c) = Errno x -> x <> 0 /\ 0 < ToErrno x <= 76.
+Proof. exact errno_nonzero. Qed.
 Print Assumptions C15_errno_valid.
